@@ -53,6 +53,28 @@ func init() {
 	registerFallback("statelock", "StateLockCode.v", c11LockNeutral)
 }
 
+// name of the private function that finds the state in the context (getState unless renamed): the
+// callee of the first `a, b, c := f[S](ctx)` of ProcessState
+var c11GetStateName = "getState"
+
+func c11FindGetState(f *ast.File) {
+	c11GetStateName = "getState"
+	ps := c11TopFunc(f, "ProcessState")
+	if ps == nil || ps.Body == nil {
+		return
+	}
+	for _, st := range ps.Body.List {
+		as, ok := st.(*ast.AssignStmt)
+		if !ok || len(as.Lhs) != 3 || len(as.Rhs) != 1 || as.Tok != token.DEFINE {
+			continue
+		}
+		if call, ok := as.Rhs[0].(*ast.CallExpr); ok && len(call.Args) == 1 && c11Unexported(c11Callee(call)) && c11TopFunc(f, c11Callee(call)) != nil {
+			c11GetStateName = c11Callee(call)
+		}
+		return
+	}
+}
+
 type c11Prog struct {
 	handler  string // name of the user-function parameter
 	stateVar string
@@ -136,7 +158,7 @@ func (p *c11Prog) stmt(s ast.Stmt) error {
 		if !ok {
 			return fmt.Errorf("assignment of %s", types.ExprString(x.Rhs[0]))
 		}
-		if c11Callee(call) == "getState" {
+		if c11Callee(call) == c11GetStateName {
 			if len(x.Lhs) != 3 || x.Tok != token.DEFINE || len(call.Args) != 1 || c11Ident(call.Args[0]) != "ctx" {
 				return fmt.Errorf("getState is not called as `a, b, c := getState[S](ctx)`")
 			}
@@ -198,6 +220,14 @@ func (p *c11Prog) stmt(s ast.Stmt) error {
 		}
 		return fmt.Errorf("statement %s", types.ExprString(x.X))
 	case *ast.DeferStmt:
+		// defer func() { mu.Unlock() }()  =  defer mu.Unlock()
+		if lit, isLit := x.Call.Fun.(*ast.FuncLit); isLit && len(x.Call.Args) == 0 && len(lit.Body.List) == 1 {
+			if es, isExpr := lit.Body.List[0].(*ast.ExprStmt); isExpr {
+				if call, isCall := es.X.(*ast.CallExpr); isCall {
+					return p.stmt(&ast.DeferStmt{Call: call})
+				}
+			}
+		}
 		recv, m, ok := c11Method0(x.Call)
 		if ok && recv == p.muVar && p.muVar != "" && p.muVar != "_" && m == "Unlock" {
 			p.out = append(p.out, "CDeferUnlock")
@@ -255,6 +285,9 @@ func c11LockRelevant(n ast.Node) bool {
 		if id, ok := x.(*ast.Ident); ok {
 			switch id.Name {
 			case "getState", "Lock", "Unlock", "TryLock", "internalState", "stateKey":
+				found = true
+			}
+			if id.Name == c11GetStateName {
 				found = true
 			}
 		}
@@ -323,7 +356,7 @@ func c11Converter(repo string, f *ast.File, name string) ([]string, error) {
 		return nil, fmt.Errorf("%s: the closure is handed to runnableLambda %d times", name, uses)
 	}
 	body, _, err := c11Prepare(repo, []string{"compose", "state.go"}, &ast.FuncDecl{Name: fn.Name, Type: lit.Type, Body: lit.Body},
-		c11LockRelevant, c11NormOpts{keep: map[string]bool{"getState": true}})
+		c11LockRelevant, c11NormOpts{keep: map[string]bool{c11GetStateName: true}})
 	if err != nil {
 		return nil, fmt.Errorf("%s: %v", name, err)
 	}
@@ -335,7 +368,7 @@ func c11Converter(repo string, f *ast.File, name string) ([]string, error) {
 }
 
 func c11GetState(f *ast.File) (string, error) {
-	fn := c11TopFunc(f, "getState")
+	fn := c11TopFunc(f, c11GetStateName)
 	if fn == nil || fn.Body == nil {
 		return "", fmt.Errorf("func getState not found")
 	}
@@ -469,6 +502,7 @@ func c11ExtractStateLock(repo string) (string, string, error) {
 	if err != nil {
 		return "", "", err
 	}
+	c11FindGetState(f)
 	type wr struct{ ctor, fn string }
 	var b strings.Builder
 	b.WriteString("(* Gen/StateLockCode.v — GENERATED by tools/go2v (extractor \"statelock\") from compose/state.go\n")
@@ -488,7 +522,7 @@ func c11ExtractStateLock(repo string) (string, string, error) {
 	if ps == nil || ps.Body == nil || c11HandlerParam(ps) == "" || len(ps.Type.Params.List) != 2 {
 		return "", "", fmt.Errorf("func ProcessState(ctx, handler) not found")
 	}
-	psBody, _, err := c11Prepare(repo, []string{"compose", "state.go"}, ps, c11LockRelevant, c11NormOpts{keep: map[string]bool{"getState": true}})
+	psBody, _, err := c11Prepare(repo, []string{"compose", "state.go"}, ps, c11LockRelevant, c11NormOpts{keep: map[string]bool{c11GetStateName: true}})
 	if err != nil {
 		return "", "", fmt.Errorf("ProcessState: %v", err)
 	}
